@@ -13,7 +13,7 @@ Every case is built through the public formulation factory as
 
 * MDF with inner MDA in {MDAJacobi, MDAGaussSeidel, MDAChain} (tolerance 1e-14),
 * IDF with normalize_constraints in {True, False} x start_at_equilibrium in {False, True},
-* parallel IDF (``n_processes`` in {2, 3}; threads in every case, processes in about one case out of six)
+* parallel IDF (``n_processes`` in {2, 3}; threads in every case, processes in about one case out of eight, observed in a fresh interpreter by harness/c17_proc.py)
   with and without start_at_equilibrium, the design point being the random current value of the design space
   (the harness disciplines' own default inputs are 0 or the fixed-parameter defaults, i.e. another point),
 * DisciplinaryOpt when the system has no strong coupling (feed-forward listing order),
@@ -76,7 +76,7 @@ TRUSTED_EXTRA = (
     "oracle compares their results with the exact rational solution up to 2^-30, so a non-converged MDA cannot pass",
     "C17: harness disciplines (harness/c17_disc.py) evaluate dyadic affine/quadratic maps exactly in float64",
     "C17: BiLevel/composite formulations and differentiated_input_names_substitute are not covered",
-    "C17: parallel IDF with processes (use_threading=False) relies on fork(); it is formed in about 1 case out of 6",
+    "C17: parallel IDF with processes (use_threading=False) relies on fork(); it is formed in about 1 case out of 8, in a helper process (harness/c17_proc.py); a helper that does not answer within 300 s is a skipped configuration",
 )
 
 MDAS = ("MDAJacobi", "MDAGaussSeidel", "MDAChain")
@@ -688,7 +688,7 @@ def gen_case(rng: common.Rng, topo: str | None = None) -> dict[str, Any]:
     # parallel IDF (number of processes, which normalisation goes with which start, threads or processes),
     # which formulation is run through a DOE scenario (and on which kind of design space)
     case["xmode"] = rng.pick(["fresh", "shared"])
-    case["par"] = {"n": rng.pick([2, 2, 3]), "norm0": rng.chance(0.5), "procs": rng.chance(1 / 6)}
+    case["par"] = {"n": rng.pick([2, 2, 3]), "norm0": rng.chance(0.5), "procs": rng.chance(1 / 8)}
     case["doe"] = {"pick": rng.randrange(12), "normalize": rng.chance(1 / 3)}
     case["jacobi_threads"] = rng.chance(0.25)
     return case
@@ -951,12 +951,37 @@ def eval_todo(cfg, p) -> list[tuple[str, dict[str, list[float]]]]:
     return todo
 
 
-def observe_config(case, cfg, fpts) -> dict[str, Any]:
+PROC_TIMEOUT = 300  # seconds; a slower helper is a skipped configuration, never a verdict
+
+
+def observe_in_subprocess(case, cfg) -> dict[str, Any]:
+    """Process-parallel IDF is observed by `harness/c17_proc.py` in a fresh interpreter (fork safety)."""
+    import subprocess
+    import sys
+
+    env = dict(os.environ)
+    env["PYTHONPATH"] = os.pathsep.join(p for p in [env.get("PYTHONPATH", ""), str(common.VERIF)] if p)
+    try:
+        r = subprocess.run(
+            [sys.executable, "-m", "harness.c17_proc"], input=json.dumps({"case": case, "cfg": cfg}, default=str),
+            capture_output=True, text=True, timeout=PROC_TIMEOUT, cwd=str(common.VERIF), env=env,
+        )
+    except subprocess.TimeoutExpired:
+        return {"cfg": cfg, "skipped": "timeout"}
+    for line in reversed(r.stdout.splitlines()):
+        if line.startswith("C17-PROC-OBS "):
+            return json.loads(line[len("C17-PROC-OBS "):])
+    return {"cfg": cfg, "skipped": f"helper exit {r.returncode}: {r.stderr[-300:]}"}
+
+
+def observe_config(case, cfg, fpts, in_process: bool = False) -> dict[str, Any]:
     """Observable behaviour of one formulation on the case.
 
     The same function objects are evaluated at all the points, one after the other, and every array they
     return is held until the end (`held_vals` / `held_jacs` are read from the held objects after the last call).
     """
+    if is_process_parallel(cfg) and not in_process:
+        return observe_in_subprocess(case, cfg)
     obs: dict[str, Any] = {"cfg": cfg}
     try:
         form, discs = make_formulation(case, cfg)
@@ -1257,6 +1282,8 @@ def oracle_config(case, obs) -> list[tuple[str, str]]:
     cfg = obs["cfg"]
     form = cfg["form"]
     ck = obs.get("label") or cfg_key(cfg)
+    if "skipped" in obs:
+        return bad  # the helper process did not answer in time: no observation, no verdict
     observables = obs_observables(case, obs)
     exp_names = expected_names(case, form)
     if exp_names is None:
@@ -1541,6 +1568,8 @@ def model_lines_for_config(case, obs) -> list[tuple[str, Any]]:
     form = cfg["form"]
     out: list[tuple[str, Any]] = []
     tag = {"MDF": "mdf", "IDF": "idf", "DisciplinaryOpt": "dopt"}[form]
+    if "skipped" in obs:
+        return out
     out.append((f"names {tag}", ("names", obs)))
     if "error" in obs or "evals" not in obs or obs.get("probe"):
         return out
@@ -1908,6 +1937,10 @@ def run_case(res: Result, case, rng_mask, pending: list | None, origin: str) -> 
             res.count(f"doe-normalize_design_space={int(obs.get('rounded', False))}")
             res.count("doe-samples", obs.get("n_samples", 0))
             res.count("doe-gradients-read-from-database", sum(len(r.get("jacs", [])) for r in obs.get("evals", [])))
+            continue
+        if "skipped" in obs:
+            res.count(f"skipped-cfg={ck}")
+            res.notes.append(f"{origin}: {ck} not observed ({obs['skipped'][:120]})")
             continue
         res.count(f"cfg={ck}")
         res.count("function-evaluations", sum(len(r.get("vals", [])) for r in obs.get("evals", [])))
